@@ -107,7 +107,9 @@ def build_pools(drv, nocase, binary, size, rng, want0, n_pools):
             pool = {i + 1: k for i, k in enumerate(best)}
         others = [k for bb in groups if bb != b for k in groups[bb] if k and (not nocase or fold(k) not in
                   {fold(x) for x in pool.values()})]
-        pool[5] = rng.choice(others)
+        # the key that lives elsewhere: the EMPTY key whenever the pool's own bucket is not the empty key's (bucket 0), so
+        # that every history also asks for a zero-length key whose slot is unused, used by others, or its own
+        pool[5] = b"" if (b != 0 and b"" not in pool.values()) else rng.choice(others)
         pools.append(pool)
         if len(pools) >= n_pools:
             break
@@ -287,6 +289,8 @@ def run(ctx):
         if nc:
             pool += [k.swapcase() for k in pool if k.swapcase() != k][:6]
         pool = list(dict.fromkeys(pool))[:20]
+        if hi % 3 != 1 and b"" not in pool:
+            pool[-1] = b""          # the zero-length key takes part in most random histories
         rng.shuffle(pool)
         ops = random_history(rng, len(pool), 300 if quick else rng.choice([200, 800, 2000]))
         scripts.append(("rand-%d-nc%d-b%d#%d" % (size, nc, binary, hi), script_for(pool, nc, size, binary, ops)))
